@@ -30,8 +30,8 @@ MANIFEST = {
                   'a controlled scheduler.  Exploration level.',
     'level_note': 'Trusts the POSIX evaluator, the VTIMEZONE writer and CPython datetime.',
 }
-PLAN = {'quick': {'shards': 4, 'timeout': 600, 'budget': 60},
-        'thorough': {'shards': 16, 'timeout': 3000, 'budget': 900}}
+PLAN = {'quick': {'shards': 4, 'timeout': 1800, 'budget': 900},
+        'thorough': {'shards': 16, 'timeout': 7200, 'budget': 2400}}
 N_TRIPLES = {'quick': 14, 'thorough': 250}
 
 
